@@ -128,6 +128,45 @@ def programs(rng, tier):
     for _ in range(40 if quick else 1000):                                    # few-node diagrams over many variables
         nv = rng.choice([12, 16, 25, 40])
         progs.append(extraction(random_bdd(rng, nv, max_support=5)))
+    for _ in range(25 if quick else 600):                                     # huge core + tiny remainder over 50..90 variables
+        nv = rng.choice([50, 60, 64, 70, 90])
+        k = rng.randrange(1, 3)
+        tail = sorted(rng.sample(range(k + 1, nv), rng.choice([nv - k - 2, nv - k - 1, (nv - k) // 2])))
+
+        def fn(asg, k=k, tail=tail):
+            if asg[0]:
+                return all(asg[i] for i in range(1, k + 1))
+            return all(asg[i] for i in tail)
+        vs_ = sorted(set([0] + list(range(1, k + 1)) + tail))
+        # built directly as a chain-shaped canonical array (too many variables for the truth-table builder)
+        nodes = [(nv, 0, 0), (nv, 1, 1)]
+        prev = 1
+        for x in reversed(tail):
+            nodes.append((x, 0, prev))
+            prev = len(nodes) - 1
+        lo = prev
+        prev = 1
+        for x in reversed(range(1, k + 1)):
+            nodes.append((x, 0, prev))
+            prev = len(nodes) - 1
+        hi = prev
+        # layout: high child first => the x1..xk chain must precede the tail chain
+        nodes = [(nv, 0, 0), (nv, 1, 1)]
+        prev = 1
+        for x in reversed(range(1, k + 1)):
+            nodes.append((x, 0, prev))
+            prev = len(nodes) - 1
+        hi = prev
+        prev = 1
+        for x in reversed(tail):
+            if x <= k:
+                continue
+            nodes.append((x, 0, prev))
+            prev = len(nodes) - 1
+        lo = prev
+        nodes.append((0, lo, hi))
+        if is_canonical(nodes)[0]:
+            progs.append(extraction(nodes))
     for _ in range(80 if quick else 2000):                                    # valid non-canonical arrays: to_dnf / to_cnf only
         nv = rng.choice([3, 4, 5, 6])
         b = noncanonical_variant(rng, random_bdd(rng, nv))
